@@ -16,6 +16,7 @@ def oracle(c):
     d = tp.parse_dump(c.dump)
     prods, nterms = lf.grammar_symbols(d)
     bad = []
+    has_layout = c.gram is not None and c.gram.layout is not None    # what lies between tokens is C14's business then
     by_input = {}
     for k, ((algo, partial, inp, meta), res) in enumerate(zip(c.inputs, c.results)):
         by_input.setdefault(inp, {})[partial] = (k, res)
@@ -37,7 +38,7 @@ def oracle(c):
         for leaf in tp.leaves(t):
             (s, _, _), (e, _, _) = leaf["span"]
             gap = data[pos:s]
-            if s < pos or not oracles.is_ws(gap):
+            if s < pos or (not has_layout and not oracles.is_ws(gap)):
                 okk = False
                 break
             rs = lf.rec_string(d, leaf["kind"])
@@ -45,7 +46,7 @@ def oracle(c):
                 okk = False
                 break
             pos = e
-        if okk and partial == "0" and not oracles.is_ws(data[pos:]):
+        if okk and partial == "0" and not has_layout and not oracles.is_ws(data[pos:]):
             okk = False
         if not okk:
             bad.append((k, "leaves are not the tokens of the consumed input in order"))
